@@ -9,6 +9,7 @@ import numpy as np
 
 from gridrv import core, instrument
 from gridrv.oracles import periodic_ref as pref
+from gridrv.monitors import roundtrip
 from gridrv.props import c10 as c10mod
 
 PROP = "C11"
@@ -260,7 +261,7 @@ def setup(ctx):
 CELL_KINDS = ["cubic", "ortho", "skew", "skew20", "lefthanded", "negative", "aspect50", "general"]
 PLACEMENTS = ["inside", "outside", "mixed", "single"]
 DIMCODES = ["1", "1c", "2", "3"]
-WITNESSES = ["empty-sphere", "negative-1d", "one-d-no-lattice", "skewed-2d", "big-sphere-3d", "stale-intervals-after-points-setter", "zero-weights"]
+WITNESSES = ["empty-sphere", "negative-1d", "one-d-no-lattice", "skewed-2d", "big-sphere-3d", "stale-intervals-after-points-setter", "zero-weights", "clones"]
 
 
 def cases(tier, seed):
@@ -446,7 +447,26 @@ def pick_periodic_query(rng, g, A, full, mode):
     return c, float(r)
 
 
-def do_periodic_query(ctx, g, A, full, mode):
+def periodic_clone_step(ctx, g, A, full, mutate=True):
+    """Clone the lattice grid (copy / deepcopy / pickle), send the same query to both, mutate one, query both again."""
+    rng = ctx.rng
+
+    def query_same(objs):
+        do_periodic_query(ctx, objs[0], A, full, str(rng.choice(QUERY_MODES)), also=objs[1:])
+
+    def query_each(o):
+        do_periodic_query(ctx, o, A, full, str(rng.choice(["small", "cell", "cell3", "neartie"])))
+
+    mutations = [
+        ("weights-setter", lambda o: c10mod.do_set_weights(ctx, o), False),
+        ("weights-in-place", c10mod._inplace_weights, True),
+        ("points-setter", lambda o: do_set_points(ctx, o, A, full), False),
+        ("points-in-place", c10mod._inplace_points_then_reseat, True),
+    ]
+    return c10mod.clone_step(ctx, g, _subject(g), query_same, query_each, mutations if mutate else [])
+
+
+def do_periodic_query(ctx, g, A, full, mode, also=()):
     c, r = pick_periodic_query(ctx.rng, g, A, full, mode)
     if pref.image_count(pref.as2d(np.asarray(g.points)), A, c, r) > 10 * MAX_TRANSLATIONS:
         # the point set itself spans so many cells (non-lattice direction of a 1:50 cell) that even r -> 0 needs > 2e5 translations
@@ -456,6 +476,8 @@ def do_periodic_query(ctx, g, A, full, mode):
     cc = c10mod._fmt_center(ctx.rng, c, flat)
     rr = c10mod._fmt_radius(ctx.rng, r)
     ctx.count("op:query-" + mode)
+    for o in also:  # the same query on the clones of g
+        _call(ctx, lambda: o.get_localgrid(cc, rr))
     return _call(ctx, lambda: g.get_localgrid(cc, rr))
 
 
@@ -483,17 +505,28 @@ def run_case(ctx, family, params):
         modes = list(QUERY_MODES) + [str(m) for m in rng.choice(QUERY_MODES, int(rng.integers(2, 8)))]
         for m in modes:
             do_periodic_query(ctx, g, A, full, m)
+        periodic_clone_step(ctx, g, A, full)  # every cell kind / placement / wrap: clone after the tree was built and used
     elif family == "history":
         nops = int(rng.integers(5, 21))
+        live = [g]
         for _ in range(nops):
+            g = live[int(rng.integers(len(live)))]
             u = rng.random()
             if u < 0.2:
                 do_set_points(ctx, g, A, full)
             elif u < 0.3:
                 c10mod.do_set_weights(ctx, g)
+            elif u < 0.42:
+                c = periodic_clone_step(ctx, g, A, full)
+                if c is not None:
+                    if len(live) < 3:
+                        live.append(c)
+                    else:
+                        live[int(rng.integers(len(live)))] = c
             else:
                 do_periodic_query(ctx, g, A, full, str(rng.choice(QUERY_MODES)))
-        do_periodic_query(ctx, g, A, full, "cell")
+        for o in live:
+            do_periodic_query(ctx, o, A, full, "cell")
     elif family == "select":
         for _ in range(int(rng.integers(2, 6))):
             kind = str(rng.choice(c10mod.SEL_KINDS))
@@ -506,6 +539,8 @@ def run_case(ctx, family, params):
             if ok:
                 for m in rng.choice(QUERY_MODES, 3):
                     do_periodic_query(ctx, sub, A, full, str(m))
+                if rng.random() < 0.5:
+                    periodic_clone_step(ctx, sub, A, full, mutate=bool(rng.integers(2)))  # clone of a selection
     else:
         raise core.MonitorError("unknown family " + family)
 
@@ -665,6 +700,36 @@ def run_witness(ctx, name):
         _call(ctx, lambda: g.get_localgrid(np.array([0.6, 0.6]), 0.7))
         g.points = q + np.array([3, -2]) @ A + 0.05
         _call(ctx, lambda: g.get_localgrid(np.array([0.6, 0.6]), 0.7))
+    elif name == "clones":
+        # every way of cloning x lattice shapes, after the tree was built; then reassign the points of the original and the
+        # weights of the clone: each object answers for its own current state
+        f = rng.random((14, 2))
+        A = np.array([[1.0, 0.0], [0.4, 1.1]])
+        mk = [
+            lambda: PeriodicGrid(f @ A, np.linspace(0.5, 1.5, 14), A.copy()),
+            lambda: PeriodicGrid((f + np.array([4, -3])) @ A, np.linspace(0.5, 1.5, 14), A.copy(), wrap=True),
+            lambda: PeriodicGrid(f @ A, np.linspace(0.5, 1.5, 14), A[1:].copy()),
+            lambda: PeriodicGrid(f[:, 0].copy(), np.linspace(0.5, 1.5, 14), np.array([-0.7])),
+            lambda: PeriodicGrid(f @ A, np.linspace(0.5, 1.5, 14)),
+        ]
+        for make in mk:
+            for kind in roundtrip.KINDS:
+                g = make()
+                flat = np.asarray(g.points).ndim == 1
+                cen = 0.45 if flat else np.array([0.45, 0.55])
+                _call(ctx, lambda: g.get_localgrid(cen, 0.8))
+                c = roundtrip.check_clone(ctx, _subject(g), g, kind)
+                if c is None:
+                    continue
+                for o in (g, c):
+                    _call(ctx, lambda: o.get_localgrid(cen, 0.8))
+                before = roundtrip.public_state(c)
+                g.points = np.asarray(g.points) + (3.0 if flat else np.array([3.0, -2.0]) @ A) + 0.05
+                ctx.check("clone-independent", f"{_subject(g)}:{kind}", before == roundtrip.public_state(c), sig="clone-changed-by-points-setter-on-the-other:")
+                c.weights = np.asarray(c.weights) * 2 + 1
+                for o in (g, c):
+                    for r in (0.3, 0.8, 2.1):
+                        _call(ctx, lambda: o.get_localgrid(cen, r))
     elif name == "zero-weights":
         # membership must depend on geometry only: exact zeros of both signs, negative, denormal, integer weights
         n = 18
